@@ -1,6 +1,7 @@
 """C09 -- round-by-round queries on a finished election are consistent and pure."""
 import random, os, json, multiprocessing as mp
 from ..common import Result, OUT, scratch, Machinery
+from ..common import fork_pool
 from .. import domains as D
 from . import elect as EL
 
@@ -87,7 +88,7 @@ def run(tier, seed, replay=None):
                            props=["MMonotone"], name="mc%d" % i)
         inputs = corpus(tier, seed)
     res.evaluations = len(inputs)
-    with mp.get_context("fork").Pool(16) as pool:
+    with fork_pool(16) as pool:
         traces = [t for ts in pool.imap_unordered(work, inputs, chunksize=16) for t in ts]
     traces.sort(key=lambda t: json.dumps({k: v for k, v in t.items() if not k.startswith("_")}, sort_keys=True))
     res.notes["finished_elections"] = len(traces)
